@@ -13,6 +13,7 @@ import WpModel.Lemmas.TableKinds
 import WpModel.Lemmas.Threading
 import WpModel.Lemmas.SpaceFlags
 import WpModel.Lemmas.RowGroups
+import WpModel.Lemmas.TableRules
 
 namespace Wp.C08
 open Wp Wp.Bx Wp.TableGrid
@@ -825,6 +826,37 @@ example :
       (fun (x : KBox) => (x.el.span, x.inst.isHeader, x.inst.isFooter)) =
     [(some 2, true, false), (some 1, false, false), (some 4, false, false), (some 5, false, false),
      (some 6, false, false), (some 3, false, true)] := by
+  decide
+
+/-- Rules 1.3 / 1.4, exactly (the clause the Python oracle `box_segments` samples: "white-space text may vanish
+only between two internal table boxes or at the edge of a tabular container"), for every list of children:
+* rule 1.4 as modelled is the source's comprehension over `zip([None]+children[:-1], children, children[1:]+[None])`;
+* its result is a sublist of the children and keeps every child that is not white-space text, in order;
+* a child with a neighbour that is no internal table box / caption on either side — or that is no white-space
+  text — is kept where it is;
+* rule 1.3 removes at most the first and the last child, both white-space text. -/
+theorem table_rules_13_14_exact :
+    (∀ (prev : Option KBox) (l : List KBox), rule14 prev l =
+      (contexts prev l).filterMap (fun t => if rule14Drop t.1 t.2.1 t.2.2 = true then none else some t.2.1)) ∧
+    (∀ (prev : Option KBox) (l : List KBox), (rule14 prev l).Sublist l ∧
+      (rule14 prev l).filter (fun c => !isWhitespace c) = l.filter (fun c => !isWhitespace c)) ∧
+    (∀ (prev : Option KBox) (c : KBox) (cs : List KBox),
+      ((match prev with | some p => Gen.internalTableOrCaption p.kind | none => false) = false ∨
+       (match cs with | nx :: _ => Gen.internalTableOrCaption nx.kind | [] => false) = false ∨
+       isWhitespace c = false) → rule14 prev (c :: cs) = c :: rule14 (some c) cs) ∧
+    (∀ l : List KBox, ∃ a b, l = a ++ rule13 l ++ b ∧ a.length ≤ 1 ∧ b.length ≤ 1 ∧
+      ∀ c ∈ a ++ b, isWhitespace c = true) :=
+  ⟨rule14_eq_comprehension, fun prev l => ⟨rule14_sublist prev l, rule14_keeps_nonwhite prev l⟩,
+    rule14_keeps_head, rule13_shape⟩
+
+/-- `tr, " ", td, " ", span, " "` in a table: the space between row and cell goes (rule 1.4), the space between
+cell and span stays, the last space stays (its neighbour is no table part); `" ", tr, " "`: both go (1.3). -/
+example :
+    let t (s : List Nat) : KBox := .mk .TextBox {} {} {} s [] []
+    let k (kind : BoxKind) : KBox := .mk kind {} {} {} [] [] []
+    (rule14 none (rule13 [k .TableRowBox, t [32], k .TableCellBox, t [32], k .InlineBox, t [32]])).map
+        (fun (c : KBox) => c.kind) = [.TableRowBox, .TableCellBox, .TextBox, .InlineBox, .TextBox] ∧
+    (rule14 none (rule13 [t [32], k .TableRowBox, t [10]])).map (fun (c : KBox) => c.kind) = [.TableRowBox] := by
   decide
 
 /-- Rule 3.2 — *which* anonymous table: under a parent that is no table part, every child after the
